@@ -327,6 +327,9 @@ func runItem(p *Property, it workItem, tier string, seed int64, secs, bound int,
 	if tier == "quick" && it.sc.QuickMaxBound > 0 && (it.sc.MaxBound == 0 || it.sc.QuickMaxBound < it.sc.MaxBound) {
 		it.sc.MaxBound = it.sc.QuickMaxBound
 	}
+	if tier == "quick" && it.sc.UnboundedThoroughOnly {
+		unbounded = false
+	}
 	r := sched.Explore(it.sc, sched.Options{MaxBound: bound, Unbounded: unbounded, Cache: p.Cache, Deadline: deadline, MaxViol: 8})
 	res := &PartResult{Name: it.name, Engine: "S", Detail: r, Error: r.Error}
 	ex := true
